@@ -38,6 +38,12 @@ STEPS = {
     'fileformattoml': ('pypyr.steps.fileformattoml', 'fileFormatToml', 'object', '.toml'),
 }
 KILL_EXIT = 77
+
+# pypyr logs the injected failures at ERROR level; keep them off stderr
+import logging
+_lg = logging.getLogger('pypyr')
+_lg.addHandler(logging.NullHandler())
+_lg.propagate = False
 FAULT_KEY = 'zz_fault'
 
 
@@ -71,11 +77,11 @@ def render_doc(step, doc):
     raise ValueError(step)
 
 
-def materialise(scn, root):
+def materialise(scn, root, plant=True):
     """Create the scenario's files under root. The fault (if it is produced through content) is
     planted here: the faulted line / node references `{missing}`, `{bomb}` or `{unser}`."""
     step = scn['step']
-    fault = scn.get('fault') or {}
+    fault = (scn.get('fault') or {}) if plant else {}
     enc = file_encoding(scn)
     for d in scn.get('dirs', []):
         os.makedirs(os.path.join(root, d), exist_ok=True)
@@ -141,6 +147,10 @@ class Bomb:
 
     def __str__(self):
         return self.__format__('')
+
+
+class Unser:
+    """A context value no serialiser can write (formats to itself when it is the whole string)."""
 
 
 class Recorder:
@@ -384,7 +394,7 @@ def build_context(scn, root, bomb, inert):
         ctx['missing'] = 'M'
         ctx['unser'] = 'S'
     else:
-        ctx['unser'] = {1, 2}       # formats to itself; no serialiser can write a set
+        ctx['unser'] = Unser()
     ctx[key] = cfg
     return ctx
 
@@ -479,15 +489,14 @@ def observe(scn):
         ref_root, run_root = os.path.join(base, 'ref'), os.path.join(base, 'run')
         os.makedirs(ref_root)
         os.makedirs(run_root)
-        materialise(scn, ref_root)
+        bad = bool(fault and fault.get('via') == 'badsource')
+        materialise(scn, ref_root, plant=not bad)
         materialise(scn, run_root)
         before = audit(run_root)
         order = glob_order(scn, run_root)
         # ---- reference: what a complete, successful rewrite writes
-        ref = {'ok': False}
-        if not (fault and fault.get('via') == 'badsource'):
-            o, rec = run_step(scn, ref_root, inert=True)
-            ref = {'ok': o['end'] == 'ok', 'outcome': o, 'jobs': rec.jobs, 'after': audit(ref_root)}
+        o, rec = run_step(scn, ref_root, inert=True)
+        ref = {'ok': o['end'] == 'ok', 'outcome': o, 'jobs': rec.jobs, 'after': audit(ref_root)}
         # ---- the run under test
         if fault and fault['kind'] == 'kill':
             outcome, events, jobs = run_killed(scn, run_root, fault)
